@@ -10,6 +10,27 @@ namespace Sbdf
 @[simp] theorem P.pure_def' (a : α) : (pure a : P α) = P.pure a := rfl
 theorem P.seq_def (p : P Unit) (q : P β) : (do p; q) = P.bind p (fun _ => q) := rfl
 
+theorem P.bind_eq_ok {p : P α} {f : α → P β} {d : Array UInt8} {pos : Nat} {r : β × Nat} :
+    P.bind p f d pos = .ok r ↔ ∃ a p1, p d pos = .ok (a, p1) ∧ f a d p1 = .ok r := by
+  simp only [P.bind]
+  cases h : p d pos with
+  | error e => simp
+  | ok x =>
+    obtain ⟨a, p1⟩ := x
+    constructor
+    · intro h'; exact ⟨a, p1, rfl, h'⟩
+    · intro ⟨a', p1', h1, h2⟩; cases h1; exact h2
+
+theorem P.pure_eq_ok {a : α} {d : Array UInt8} {pos : Nat} {r : α × Nat} :
+    P.pure a d pos = .ok r ↔ r = (a, pos) := by
+  simp [P.pure, eq_comm]
+
+@[simp] theorem P.fail_ne_ok {s : Status} {d : Array UInt8} {pos : Nat} {r : α × Nat} :
+    (P.fail s : P α) d pos = .ok r ↔ False := by simp [P.fail]
+
+@[simp] theorem P.ub_ne_ok {w : String} {d : Array UInt8} {pos : Nat} {r : α × Nat} :
+    (P.ub w : P α) d pos = .ok r ↔ False := by simp [P.ub]
+
 /-- In any context (`pre ++ bs ++ rest`, positioned after `pre`) `p` returns `a` and ends exactly
     after `bs`. -/
 def Reads (p : P α) (bs : Bytes) (a : α) : Prop :=
